@@ -119,9 +119,15 @@ def resolveConflict (R : Renamer σ) (r : Run σ) (dir : APath) (src dst : PureP
   | .manual, a :: as =>
     match a with
     | .custom p =>
-      match r.call R dir src p false with
-      | (r', none) => (r', as, none)
-      | (r', some e) => (r', as, some (if e = .fileExists then .crash else outcomeOfErr e))
+      -- (F18) the custom path is subject to the same containment check as a generated one
+      match contained (R.view r.st) dir p with
+      | .error .UNMODELLED => (r, as, some .unmodelled)
+      | .error _ => (r, as, some .crash)
+      | .ok false => (r, as, some .invalidDest)
+      | .ok true =>
+        match r.call R dir src p false with
+        | (r', none) => (r', as, none)
+        | (r', some e) => (r', as, some (if e = .fileExists then .crash else outcomeOfErr e))
     | .stop => (r, as, some .destExists)
     | .ignore => (r, as, none)
     | .override =>
